@@ -135,7 +135,7 @@ func VH_C05_loadLabel_vs_spec(m int, form int, total int) {
 func VH_C05_label_roundtrip(m int) {
 	first := boc.NewBitString(m)
 	last := boc.NewBitString(m)
-	var fb, lb [16]bool
+	var fb, lb [64]bool
 	for j := 0; j < m; j++ {
 		fb[j] = zzvrt.NondetBool("f")
 		lb[j] = zzvrt.NondetBool("l")
